@@ -276,6 +276,12 @@ Definition tslice_during (self : tarr) (e : epochs) : xres (nat * nat) :=
                 else i_stop in
   XOk (i_start, i_stop).
 
+(* integer selection self[k], k a Python int or ANY numpy integer scalar (since /repo f2c2916; before,
+   only int / np.int32 / np.int64): self[[k]].reshape(()) — a 0-d time object in the unit of self;
+   UniformTime.__getitem__ does the same and views the result as a TimeArray *)
+Definition tarr_getint (self : tarr) (k : Z) : xres tarr :=
+  do x <- getz (payload self) k; XOk (mk_tarr [x] (tunit self) true).
+
 (* self[self.index_at(t, tol=tol)] *)
 Definition tarr_at (self : tarr) (t : data) (tol : option data) : xres tarr :=
   do i <- index_at self t tol Closest;
@@ -356,6 +362,9 @@ Definition uat (ax : uaxis) (t : data) : xres tarr :=
   | UList l => do v <- gatherz (u_samples ax) l; XOk (mk_tarr v (u_unit ax) false)
   | UMask _ => XErr XOther
   end.
+
+Definition uaxis_getint (ax : uaxis) (k : Z) : xres tarr :=
+  do x <- getz (u_samples ax) k; XOk (mk_tarr [x] (u_unit ax) true).
 
 Definition uduring (ax : uaxis) (e : epochs) : xres (list Z) :=
   do _ <- scalar_bounds e;
